@@ -46,7 +46,7 @@ def gen_cases(tier, seed):
             d["perturb"] = r.choice(["instr", "none"]) if W > 1 else "none"
         elif mode == "retry":
             d["retry"] = r.choice([1, 2, 3, 5, "custom2", "custom4"])
-            d["faults"] = {"p": r.choice([0.2, 0.5]), "kinds": ["exc", "value"], "flaky": True, "max_flaky": r.choice([1, 2, 3, 6])}
+            d["faults"] = {"p": r.choice([0.2, 0.5]), "kinds": r.choice([["exc", "value"], ["exc", "value", "callerr"], ["callerr"]]), "flaky": True, "max_flaky": r.choice([1, 2, 3, 6])}
             d["max_errors"] = r.choice([None, 0])
             d["perturb"] = r.choice(["instr", "none"]) if W > 1 else "none"
         elif mode == "stale":
@@ -118,8 +118,11 @@ def run_retry_callables(desc):
     kinds = []
     for t in range(m):
         deps = rng.sample(nodes, min(len(nodes), rng.choice([0, 1, 2])))
-        kind = rng.choice(["partial", "callobj", "method", "partial"])
+        kind = rng.choice(["partial", "callobj", "method", "partial", "shared_fn", "shared_fn"])
         kinds.append(kind)
+        if kind == "shared_fn":
+            nodes.append(plan.call(body, t, *deps))  # several calls share ONE plain function object (tag passed as an argument)
+            continue
         fn = functools.partial(body, t) if kind == "partial" else (CallObj(t) if kind == "callobj" else Holder(t).method)
         nodes.append(plan.call(fn, *deps))
     exc = res = None
